@@ -18,7 +18,7 @@ RULE = ("inputs: (i) random Unicode strings <= 64 chars biased to the lexer's ch
 
 WS = [" ", "\t", "\n", "\r", " ", " ", " ", " ", "　", "\u000b", "\u000c", "\u0085", " ", " ", " "]
 CLASSES = [list("0123456789"), list(".eE+-"), list("*/^%,"), list("(){}"), list("°'"), list("abcdefgklmnopstuxyzABCJKMNTVW"),
-           list("éπμΩ…ßλ漢🙂"), WS, list("_:\"\\#@!?~`|&;<>=[]$")]
+           list("éπμΩ…ßλ漢🙂\u2212\u00d7\u00f7\u00b2\u00b3\u00b5\uff11\u0661\u2044\u2030"), WS, list("_:\"\\#@!?~`|&;<>=[]$")]
 FUNCS = ["sin", "cos", "round", "floor", "ceil"]
 PUNCT = ["(", ")", ",", "+", "-", "*", "/", "^", "**", "%", "{", "}", "to"]
 
